@@ -59,6 +59,50 @@ def case : P String := do
         | .ok qs =>
           pure (joinSp (("ok " ++ JsonProto.enc after ++ " fok " ++ toString qs.length) :: qs.map JsonProto.enc))
         | .error e => pure ("ok " ++ JsonProto.enc after ++ " ferr " ++ JsonProto.enc e.request)
+  | "flat" => do
+    let v ← JsonProto.json
+    let r : Except (GridSearch.PipeErr GridSearch.ErrKind) Json := GridSearch.flattenInPlace v
+    match r with
+    | .ok w => pure ("ok " ++ JsonProto.enc w)
+    | .error e => pure ("perr " ++ JsonProto.enc e.request)
+  | "fin" => do
+    let v ← JsonProto.json
+    let r : Except (GridSearch.PipeErr GridSearch.ErrKind) (List Json) := GridSearch.jsonArrayFlatten v
+    match r with
+    | .ok qs => pure (joinSp (("ok " ++ toString qs.length) :: qs.map JsonProto.enc))
+    | .error e => pure ("perr " ++ JsonProto.enc e.request)
+  | "pkg" => do
+    let kind ← next
+    match kind with
+    | "e" => do
+      let q ← JsonProto.json
+      pure (JsonProto.enc (GridSearch.packageError q))
+    | "i" => do
+      let q ← optOf JsonProto.json
+      let sub ← optOf JsonProto.json
+      pure (JsonProto.enc (GridSearch.packageInvariantError q sub))
+    | _ => failure
+  | "msd" => do
+    let k ← nat
+    let sets ← listOf (listOf nat)
+    match MultiSet.takeN k (MultiSet.from sets) with
+    | .ok (l, ended) => pure ("ok " ++ (if ended then "1 " else "0 ") ++ natListList l)
+    | .panic _ => pure "panic"
+    | .diverges => pure "diverges"
+  | "bld" => do
+    let cfg ← JsonProto.json
+    let q ← JsonProto.json
+    match GridSearch.buildInputPlugins GridSearch.gridOnlyRegistry cfg with
+    | .error e => pure ("cerr " ++ e.variant)
+    | .ok plugins =>
+      match GridSearch.processO q with
+      | .panic _ => pure "panic"
+      | .diverges => pure "diverges"
+      | .ok _ =>
+        let head := "built " ++ toString plugins.length ++ " "
+        match GridSearch.applyInputPlugins plugins q with
+        | .ok qs => pure (head ++ joinSp (("ok " ++ toString qs.length) :: qs.map JsonProto.enc))
+        | .error e => pure (head ++ "perr " ++ JsonProto.enc e.request)
   | _ => failure
 
 def run (line : String) : String := Proto.run case line
